@@ -12,19 +12,20 @@ META = {
     'category': 'fault_enumeration',
     'technique': 'TLA+ Codec.tla (batch-granular stream model: RoundTrip and Detects clauses) judges recorded encode/decode round trips over swept batch and destination sizes and recorded outcomes of exhaustive single-bit flips, all truncation points and random bursts applied to the real encoded bytes',
     'level_text': 'fault enumeration judged by a TLA+ model: streams over column type sets (ints, floats, strings, byte slices, gob-encoded structs), batch-size sequences including empty batches and destination-size sequences (buffered and direct decode paths) are written with the real Encoder and read back; for small streams EVERY single-bit flip and EVERY truncation point is applied to the real bytes (plus random multi-byte bursts on larger ones), the offset is mapped to the batch it lies in from the recorded batch boundaries, and TLC checks: error (no clean EOF, no panic), delivered rows are a correct prefix that stops before the damaged batch',
-    'level_note': 'coverage-guided fuzzing named in the quantifier is replaced by exhaustive single-fault damage of small streams; memory-safety of gob decoding into frame memory is outside this technique; custom frame codecs are not in the type universe yet',
+    'level_note': 'coverage-guided fuzzing named in the quantifier is replaced by exhaustive single-fault damage of small streams; memory-safety of gob decoding into frame memory is outside this technique; map- and array-typed columns are in the universe (gob decodes them in place), custom frame codecs are not yet',
 }
 
 
 def gen(tier):
     rng = random.Random(vlib.seed() * 14009 + 3)
     cases = []
-    typesets = ['i', 'is', 'ip', 'ib', 'fs', 'isp']
+    typesets = ['i', 'is', 'ip', 'ib', 'fs', 'isp', 'im', 'ia', 'sma']
     n = 400 if tier == 'quick' else 8000
     for _ in range(n):
         nb = rng.choice([0, 1, 2, 3, 4])
         cases.append({'id': len(cases) + 1, 'types': rng.choice(typesets), 'batches': [rng.choice([0, 1, 2, 5, 9]) for _ in range(nb)],
-                      'dests': [rng.choice([1, 2, 3, 7, 128]) for _ in range(rng.choice([1, 2, 3]))], 'damage': False, 'bursts': 0, 'seed': 0})
+                      'dests': [rng.choice([1, 2, 3, 7, 128]) for _ in range(rng.choice([1, 2, 3]))], 'damage': False, 'bursts': 0, 'seed': 0,
+                      'reuse': rng.random() < 0.5})
     nd = 10 if tier == 'quick' else 150
     for k in range(nd):
         nb = rng.choice([1, 2, 3])
@@ -32,7 +33,7 @@ def gen(tier):
                       'dests': [rng.choice([1, 2, 7])], 'damage': True, 'bursts': 0, 'seed': 0})
     for k in range(20 if tier == 'quick' else 300):
         cases.append({'id': len(cases) + 1, 'types': rng.choice(typesets), 'batches': [rng.choice([50, 128, 200]) for _ in range(rng.choice([1, 2, 3]))],
-                      'dests': [rng.choice([1, 64, 128, 300])], 'damage': False, 'bursts': 40, 'seed': rng.randrange(1 << 30)})
+                      'dests': [rng.choice([1, 64, 128, 300])], 'damage': False, 'bursts': 40, 'seed': rng.randrange(1 << 30), 'reuse': rng.random() < 0.3})
     return cases
 
 
